@@ -34,6 +34,12 @@ CHECKS["C19"] = dict(
     note="Coq kernel+VM; exporter name resolution; gcc as arbiter of C17 validity; SHA-1 collision-free on the enumerated rules; forms sampled",
     design="DESIGN.md 3 C19")
 
+CHECKS["C16"] = dict(
+    technique="Coq proof: token-level printer model over the precedence table/comparators regenerated from the source derives canon(e) under a C17 expression grammar (fmtC_derives), value preservation (canon_eval), lexer safety for all trees; char-exact correspondence with the real Formatter, pycparser re-reading of expressions and whole kernels",
+    text="For every well-formed expression tree: the printed tokens derive, under the C grammar, the same tree (n-ary nodes left-nested, negative literals as unary minus), which has the same value; no glued '--' for any tree. Statement level (loops, declarations, subscripts, bounds) and literals (one unit in the 16th printed digit) are decided by re-reading the real text with pycparser against the exported AST (correspondence). Complex literals are outside the Coq fragment. numba half: see C18.",
+    note="Coq kernel+VM; tr_prec.py; the C grammar transcription in Tok.v and its unambiguity; pycparser; CPython float formatting",
+    design="DESIGN.md 3 C16")
+
 ALL = [f"C{i:02d}" for i in range(1, 21)]
 
 NOT_YET = "check not built yet in this session (work in progress; see DESIGN.md section 6 for the order of construction)"
